@@ -24,15 +24,16 @@ CONFIG = dict(
     driver_root="Cell2v.Driver.C16",
     audit="Audit/C16.lean",
     required_theorems=["broadcast_lists_current_members", "count_eq", "order_is_join_order", "at_most_once_per_front",
-                       "isolation", "isolation_history", "leave_absent_is_noop", "remove_is_erase_first", "removed_or_never_added_not_listed", "service_is_a_map", "front_fanout", "bcast_local_delivery"],
+                       "isolation", "isolation_history", "leave_absent_is_noop", "remove_is_erase_first", "removed_or_never_added_not_listed", "service_is_a_map", "front_fanout", "bcast_local_delivery",
+                       "push_inside_session_add_reaches_new_connection", "push_inside_session_remove_skips_removed"],
     harness_pkg="./c16",
     mode="diff",
     reset_prefix="reset",
     runs={
         "quick": [dict(name="main", env={"VERIF_N": "1200"}, timeout=240),
                   dict(name="exh4", test="TestExhaustive", env={"VERIF_DEPTH": "4"}, timeout=240)],
-        "thorough": [dict(name="main", env={"VERIF_N": "20000"}, timeout=1500),
-                     dict(name="seed2", env={"VERIF_N": "10000"}, seed_offset=1000, timeout=1500),
+        "thorough": [dict(name="main", env={"VERIF_N": "20000", "VERIF_BIG": "80", "VERIF_SESS": "2000"}, timeout=1500),
+                     dict(name="seed2", env={"VERIF_N": "10000", "VERIF_BIG": "80", "VERIF_SESS": "1000"}, seed_offset=1000, timeout=1500),
                      dict(name="exh6", test="TestExhaustive", env={"VERIF_DEPTH": "6"}, timeout=1500)],
     },
     trivial=r"^(ok|nil|bad-op|dl=|dl= cb=1|n=0 \| once=1 dl=)?$",
@@ -40,7 +41,7 @@ CONFIG = dict(
          "channels (AllocTempChannel/FreeTempChannel), fronts f1,f2,f3, ids 1..7 plus 0 and 2^32-1; joins (a quarter of them duplicates of a "
          "listed id), leaves (two thirds aimed at the first/middle/last/random element of a real group, the rest at random incl. absent ids, "
          "missing groups and channels), broadcasts, create/fetch/delete, session add/remove, direct ClientSessions.PushMsg and sys.pushmsg with "
-         "live/unknown/duplicate ids, ~2% malformed lines; every case ends with a broadcast on each channel; corpus first; plus every history "
+         "live/unknown/duplicate ids, ~2% malformed lines; every case ends with a broadcast on each channel; corpus first; large-group cases (9 quick / 80 thorough per run): one group of 130-600 ids from a counter (a third with a run of duplicates) emptied from the newest end, the oldest end or at random through range ops, with a broadcast after every chunk and single steps around sizes 32/64/128/212; session-callback cases (60 / 2000): a recording ISessionsHandler whose OnSessionAdd pushes (ClientSessions.PushMsg) or joins+broadcasts (through the real push impl, in place) to lists naming the connection being added, and whose OnSessionRemove pushes to lists naming the one being removed; plus every history "
          "of length <= 4 (quick) / 6 (thorough) over a 7-operation alphabet followed by a broadcast. A case is non-trivial when its observation "
          "is a value (channel identity, tuples, deliveries); distinct = distinct (op, observation) pairs",
     trusted_base=[
